@@ -109,3 +109,202 @@ Definition run_line (line : string) : string :=
         else "badmode"))%string
   | _ => "badline"
   end.
+
+(** * inv mode: a whole inventory (files of the classes and nodes directories in walk order),
+    configuration, and one operation: render one node or the whole inventory. *)
+From RV Require Import Model.Node.
+
+Definition inc_fuel : nat := 200.
+
+Definition p_bool (t : string) : option bool :=
+  if String.eqb t "T" then Some true else if String.eqb t "F" then Some false else None.
+
+(** file := <npath> S.. (X | yaml) *)
+Definition p_file (ts : list string) : option ((list string * option yaml) * list string) :=
+  match ts with
+  | k :: ts1 =>
+      match nat_of_string k with
+      | Some k =>
+          match p_strs k ts1 with
+          | Some (path, String "X" "" :: ts2) => Some ((path, None), ts2)
+          | Some (path, ts2) =>
+              match p_yaml (S (List.length ts2)) ts2 with
+              | Some (y, ts3) => Some ((path, Some y), ts3)
+              | None => None
+              end
+          | None => None
+          end
+      | None => None
+      end
+  | [] => None
+  end.
+
+Fixpoint p_files (n : nat) (ts : list string) : option (list (list string * option yaml) * list string) :=
+  match n with
+  | 0 => Some ([], ts)
+  | S n' =>
+      match p_file ts with
+      | Some (f, ts1) =>
+          match p_files n' ts1 with
+          | Some (fs, ts2) => Some (f :: fs, ts2)
+          | None => None
+          end
+      | None => None
+      end
+  end.
+
+Definition p_count_files (ts : list string) :=
+  match ts with
+  | n :: ts' => match nat_of_string n with Some n => p_files n ts' | None => None end
+  | [] => None
+  end.
+
+Fixpoint doc_of (p : list string) (files : list (list string * option yaml)) : option (option yaml) :=
+  match files with
+  | [] => None
+  | (q, d) :: fs => if list_eq_dec string_dec p q then Some d else doc_of p fs
+  end.
+
+(** A directory registered as an entity cannot be read: the io error is an ordinary error. *)
+Definition dir_doc : yaml := YTagged "<directory>" YNull.
+
+Definition is_dir_doc (y : yaml) : bool :=
+  match y with YTagged t YNull => String.eqb t "<directory>" | _ => false end.
+
+Definition class_table (files : list (list string * option yaml)) : res (list cls_entry) :=
+  es <- discover KClass true (map fst files) ;;
+  Ok (map (fun e => {| ce_name := en_name e;
+                       ce_doc := match doc_of (en_path e) files with
+                                 | Some (Some d) => d | _ => dir_doc end;
+                       ce_loc := en_loc e |}) es).
+
+Definition node_table (compose : bool) (files : list (list string * option yaml)) : res (list node_entry) :=
+  es <- discover KNode compose (map fst files) ;;
+  Ok (map (fun e => {| ne_name := en_name e; ne_path := en_path e;
+                       ne_doc := match doc_of (en_path e) files with
+                                 | Some (Some d) => d | _ => dir_doc end |}) es).
+
+Definition canon_nodeinfo (i : nodeinfo) : string :=
+  (hx (ni_node i) ++ " " ++ hx (ni_name i) ++ " " ++ hx (ni_uri i) ++ " " ++ hx (ni_env i) ++ " A " ++
+   canon_strs (ni_apps i) ++ " C " ++ canon_strs (ni_classes i) ++ " P " ++ canon false (VMap (ni_params i)))%string.
+
+Definition sort_index (ix : index) : index :=
+  fold_right (fun '(k, ns) acc =>
+                (fix ins (l : index) : index :=
+                   match l with
+                   | [] => [(k, ns)]
+                   | (k', ns') :: l' => if String.leb k k' then (k, ns) :: l else (k', ns') :: ins l'
+                   end) acc) [] ix.
+
+Fixpoint canon_index (ix : index) : string :=
+  match ix with
+  | [] => ""
+  | (k, ns) :: ix' => (" " ++ hx k ++ " " ++ canon_strs ns ++ canon_index ix')%string
+  end.
+
+Fixpoint lookup_info (n : string) (l : list (string * nodeinfo)) : option nodeinfo :=
+  match l with
+  | [] => None
+  | (k, i) :: l' => if String.eqb k n then Some i else lookup_info n l'
+  end.
+
+Definition canon_inventory (inv : inventory) : string :=
+  let nodes := map fst (sort_index (map (fun '(n, _) => (n, [])) (inv_nodes inv))) in
+  ("A" ++ canon_index (sort_index (inv_apps inv)) ++ " C" ++ canon_index (sort_index (inv_classes inv)) ++
+   " N " ++ nat_to_string (List.length nodes) ++
+   concat_str (map (fun n => match lookup_info n (inv_nodes inv) with
+                             | Some i => (" | " ++ canon_nodeinfo i)%string
+                             | None => " | ?"
+                             end) nodes))%string.
+
+Definition run_inv (ts : list string) : string :=
+  match ts with
+  | ig :: co :: dots :: ts1 =>
+      match p_bool ig, p_bool co, p_bool dots with
+      | Some ig, Some co, Some dots =>
+          match ts1 with
+          | nm :: ts2 =>
+              match nat_of_string nm with
+              | Some nm =>
+                  match (match p_strs nm ts2 with
+                         | Some (_, k :: ts2') =>
+                             match nat_of_string k with Some k => p_strs k ts2' | None => None end
+                         | _ => None
+                         end) with
+                  | Some (matches, ts3) =>
+                      match p_count_files ts3 with
+                      | Some (cfiles, ts4) =>
+                          match p_count_files ts4 with
+                          | Some (nfiles, ts5) =>
+                              let cfg := {| c_ignore := ig; c_matches := matches;
+                                            c_compose := co; c_literal_dots := dots |} in
+                              let tables := (nt <- node_table co nfiles ;; ct <- class_table cfiles ;; Ok (nt, ct)) in
+                              match ts5 with
+                              | [op; String "S" h] =>
+                                  if String.eqb op "node" then
+                                    match unhex h with
+                                    | Some name =>
+                                        canon_res canon_nodeinfo
+                                          ('(nt, ct) <- tables ;;
+                                           render_node inc_fuel run_fuel cfg "<NODES>" nt ct name)
+                                    | None => "badcase"
+                                    end
+                                  else "badcase"
+                              | [op] =>
+                                  if String.eqb op "all" then
+                                    canon_res canon_inventory
+                                      ('(nt, ct) <- tables ;;
+                                       inventory_of
+                                         (map (fun ne => (ne_name ne,
+                                                          render_node inc_fuel run_fuel cfg "<NODES>" nt ct (ne_name ne)))
+                                              nt) empty_inventory)
+                                  else if String.eqb op "names" then
+                                    canon_res (fun '(ns, cs) =>
+                                                 ("N" ++ canon_index (sort_index (map (fun e => (en_name e, [join "/" (en_path e)])) ns)) ++
+                                                  " C" ++ canon_index (sort_index (map (fun e => (en_name e, [join "/" (en_path e)])) cs)))%string)
+                                              (ns <- discover KNode co (map fst nfiles) ;;
+                                               cs <- discover KClass true (map fst cfiles) ;; Ok (ns, cs))
+                                  else "badcase"
+                              | _ => "badcase"
+                              end
+                          | None => "badcase"
+                          end
+                      | None => "badcase"
+                      end
+                  | None => "badcase"
+                  end
+              | None => "badcase"
+              end
+          | [] => "badcase"
+          end
+      | _, _, _ => "badcase"
+      end
+  | _ => "badcase"
+  end.
+
+Definition run_abs (ts : list string) : string :=
+  match ts with
+  | n :: ts1 =>
+      match nat_of_string n with
+      | Some n =>
+          match p_strs n ts1 with
+          | Some (loc, [String "S" h]) =>
+              match unhex h with
+              | Some cls => sp "ok" (hx (abs_class_name loc cls))
+              | None => "badcase"
+              end
+          | _ => "badcase"
+          end
+      | None => "badcase"
+      end
+  | _ => "badcase"
+  end.
+
+Definition run_line2 (line : string) : string :=
+  match words line with
+  | id :: mode :: ts =>
+      if String.eqb mode "inv" then (id ++ tab ++ run_inv ts)%string
+      else if String.eqb mode "abs" then (id ++ tab ++ run_abs ts)%string
+      else run_line line
+  | _ => "badline"
+  end.
